@@ -16,7 +16,7 @@ CHECKS = {
         ref="DESIGN.md section 0.7 and 5 C01", note="Remaining premises of the whole-run theorem (run_setup): collision-freeness of the content at every piece, one file per export path, no two export paths initially hard-linked; the wf_piece side conditions are now PROVED from the layout theorems for every piece of the work list (C01_every_work_piece_good)."),
     "C02": dict(
         technique="Coq proof (candidate index complete and sound for every hash-map order; de-duplication keeps representatives; exhaustive combination search; available => Success with the segments written) + trace validation + independent availability oracle",
-        text="C02_available_means_recovered (CompleteProofs.v + EstablishProofs.v): in a fault-free run of the whole system, under every interleaving, all of whose states keep the piece available and unobstructed, the piece's evaluation can only return Success and every non-padding segment is then in place in the export tree. C02_candidates_complete/sound, C02_witnesses_give_combination, C02_search_exhaustive, C02_available_piece_recovered: at the program level, a piece whose every segment has a readable candidate holding the torrent's bytes succeeds and writes every segment not sourced from its own export file. Tied to the code by replaying 300 (3000) generated runs against the model and by an availability oracle computed from the initial snapshot.",
+        text="C02_stably_available_means_recovered / C02_stable_availability_is_invariant (RerunProofs.v): when each witness is a file the table owns no path of, or an export image already verifying for its own entry, availability at the START is kept in every reachable state (a theorem, not a hypothesis) and the piece is recovered. C02_available_means_recovered (CompleteProofs.v + EstablishProofs.v): in a fault-free run of the whole system, under every interleaving, all of whose states keep the piece available and unobstructed, the piece's evaluation can only return Success and every non-padding segment is then in place in the export tree. C02_candidates_complete/sound, C02_witnesses_give_combination, C02_search_exhaustive, C02_available_piece_recovered: at the program level, a piece whose every segment has a readable candidate holding the torrent's bytes succeeds and writes every segment not sourced from its own export file. Tied to the code by replaying 300 (3000) generated runs against the model and by an availability oracle computed from the initial snapshot.",
         ref="DESIGN.md section 5 C02", note="Statement-level hypotheses: fault-free run, the witnesses stay in place and nothing obstructs the export paths in every state of the run (avail), collision-freeness, the torrent's hash is the hash of the content; the file-system effect of the emitted operations is the FS model's (validated against real runs)."),
     "C03": dict(
         technique="Coq proof (every mutating op targets an entry's export path or its parent; table paths confined to export/<hex>/Data; open modes from Generated.v) + whole-sandbox snapshot oracle + trace validation",
@@ -24,7 +24,7 @@ CHECKS = {
         ref="DESIGN.md section 5 C03", note="Lexical confinement: assumes no symbolic link inside an export subtree."),
     "C11": dict(
         technique="Coq proof (cut-off traces of good programs are good, byte invariant under any prefix incl. cut writes, verified ranges survive) + crash injection at every mutating operation with re-run",
-        text="C11_cut_traces_are_good, C11_interrupted_bytes_sound, C11_verified_ranges_survive; the fs shim cuts the process at the k-th file operation (writes after 0/1/len-1 bytes), the interrupted tree is checked byte for byte and replayed as a cut-off trace of the model, and a clean re-run must recover everything that was available. WHOLE RUN (SystemModel/SystemProofs/GlueProofs): the scanning phase is a transition system (pool of piece programs over one shared file system; steps = any program's next action, failed operations, arbitrary read answers, a write cut short); C11_every_interrupted_state_sound: the invariant SI holds in every reachable state, which includes every crash point and the cut write.",
+        text="C11_cut_traces_are_good, C11_interrupted_bytes_sound, C11_verified_ranges_survive; the fs shim cuts the process at the k-th file operation (writes after 0/1/len-1 bytes), the interrupted tree is checked byte for byte and replayed as a cut-off trace of the model, and a clean re-run must recover everything that was available. WHOLE RUN (SystemModel/SystemProofs/GlueProofs): the scanning phase is a transition system (pool of piece programs over one shared file system; steps = any program's next action, failed operations, arbitrary read answers, a write cut short); C11_every_interrupted_state_sound: the invariant SI holds in every reachable state, which includes every crash point and the cut write. C11_rerun_recovers (RerunProofs.v): the first run is any path of that system (killed anywhere), the second a fault-free run from the state it left; every piece stably available before the first run ends in Success and in place.",
         ref="DESIGN.md section 5 C11", note="Crash = process kill (kernel state survives); power loss is outside the statement."),
     "C12": dict(
         technique="Coq proof (target shape, SetLen = declared length, padding never in a mutating op, disjoint subtrees via hex injectivity) + export-tree listing oracle + trace validation",
@@ -48,7 +48,7 @@ CHECKS = {
         ref="DESIGN.md section 5 C16", note="Allocation failure and thread panics at join are runtime."),
     "C04": dict(
         technique="Coq proof (export file first for every hash-map order; verified piece => Success with NO mutating operation; verified ranges survive every admissible operation; no truncate flags) + histories of runs with write-log oracle",
-        text="C04_export_file_is_first_candidate, C04_verified_multi/single_piece_not_written, C04_verified_ranges_preserved, C04_never_truncates; tied to the code by histories of 2-6 runs on one tree (changing scan sets, torrent subsets, flags, thread counts; finished export files hard-linked into scan directories), the write log intersected with previously verified ranges, and trace validation of every run. WHOLE RUN (SystemModel/SystemProofs/GlueProofs): the scanning phase is a transition system (pool of piece programs over one shared file system; steps = any program's next action, failed operations, arbitrary read answers, a write cut short); C04_whole_run_verified_preserved: a range holding the torrent's bytes holds them in every reachable state.",
+        text="C04_export_file_is_first_candidate, C04_verified_multi/single_piece_not_written, C04_verified_ranges_preserved, C04_never_truncates; C04_verified_set_only_grows (RerunProofs.v): over any sequence of runs, each with its own table and each complete, faulted or killed, a verified range of an export file keeps verifying; tied to the code by histories of 2-6 runs on one tree (changing scan sets, torrent subsets, flags, thread counts; finished export files hard-linked into scan directories), the write log intersected with previously verified ranges, and trace validation of every run. WHOLE RUN (SystemModel/SystemProofs/GlueProofs): the scanning phase is a transition system (pool of piece programs over one shared file system; steps = any program's next action, failed operations, arbitrary read answers, a write cut short); C04_whole_run_verified_preserved: a range holding the torrent's bytes holds them in every reachable state.",
         ref="DESIGN.md section 5 C04", note="'verifies' for the no-rewrite clause = export files of the declared length (exact reading); preservation/monotonicity use the loose reading."),
     "C05": dict(
         technique="Coq proof (labelled transition system of the executor with one-at-a-time lock release: 18-field invariant, conservation, exactly-once, deadlock freedom, strictly decreasing measure; concrete rebalancing relation proved a permutation / even) + refinement proof of an executable replay (ExecRun.xstep) + replay of the synchronisation log of every deterministic-scheduler run of the real executor through it",
